@@ -140,6 +140,15 @@ def match_schemas(w_schema, r_schema, named_schemas):
         elif w_type not in AVRO_TYPES and r_type in NAMED_TYPES:
             if match_types(w_type, r_schema["name"], named_schemas):
                 return r_schema["name"]
+        elif (
+            w_type in NAMED_TYPES
+            and r_type not in AVRO_TYPES
+            and r_type in named_schemas["reader"]
+        ):
+            # The writer defines the type inline, the reader refers to it by name
+            return match_schemas(
+                w_schema, named_schemas["reader"][r_type], named_schemas
+            )
         elif match_types(w_type, r_type, named_schemas):
             return r_schema
         raise SchemaResolutionError(error_msg)
